@@ -34,17 +34,23 @@ def methods_via_class(rep):
         # while its class is not registered the function is an ordinary configurable and may be bound by its own name;
         # registering the class turns it into a method: the binding follows it to Class.method, the bare name dies
         gin.bind_parameter(mn + '.x', 3)
+        gin.bind_parameter(('sc', mn, 'x'), 4)                   # ... also under a scope
+        if _WORLDS[0] % 4 == 2:
+          gin.get_configurable(w.objs['meth'])(object())          # ... and it may have been called already
       assert w.register(dict(base, sel='m.K', obj='K', method='m.meth', methodName='meth'), api) == 'ok'
       if early:
         rep.evaluations += 1
         rep.nontrivial_case('method-addressing/bound-before-class/%s' % api)
         try:
-          got = (gin.query_parameter('K.' + mn + '.x'), getattr(gin.get_configurable(w.objs['K'])(), mn)(), bool(gin.config_str()))
+          inst = gin.get_configurable(w.objs['K'])()
+          with gin.config_scope('sc'):
+            scoped = getattr(inst, mn)()
+          got = (gin.query_parameter('K.' + mn + '.x'), getattr(inst, mn)(), scoped, bool(gin.config_str()))
         except Exception as e:  # pylint: disable=broad-except
           got = '%s: %s' % (type(e).__name__, e)
-        if got != (3, 3, True):
+        if got != (3, 3, 4, True):
           rep.violation(dict(kind='method-addressing', clause='binding-follows-the-method'),
-                        dict(kind='method-addressing', api=api, expected=[3, 3, True], got=got))
+                        dict(kind='method-addressing', api=api, expected=[3, 3, 4, True], got=got))
           gin.clear_config()
           continue
       paths = {
